@@ -311,3 +311,7 @@ mod tests {
         assert_eq!(result.len(), 0);
     }
 }
+
+#[cfg(feature = "pendulum_project_ntpd_rs_verif")]
+#[path = "/verif/hooks/ntp-proto/algorithm_kalman_select.rs"]
+pub mod verif_hooks;
